@@ -79,6 +79,9 @@ def safe_instr(rng, mode, labels_all):
         # a label used as an immediate: the field width is fixed by the register
         rg = rng.choice(G.R16 if mode == 16 else G.R32)
         return ("mn", "MOV", [G.reg(rg), A.ident(rng.choice(labels_all))])
+    if r < 0.95:
+        # far jump to a constant pointer (position independent; pass 1 reserves 8 / 7 bytes)
+        return ("mn", "JMP", [("seg", rng.choice(["", "DWORD"]), A.num(rng.choice([8, 16, 0x7c0])), A.hexn(rng.choice([0x1b, 0, 0x7c00])))])
     return ("mn", rng.choice(G.SHIFT), [G.reg(rng.choice(regs)), G.imm(rng.choice([1, 3, 7]))])
 
 
